@@ -14,7 +14,7 @@ EXPLANATION = (
     "evaluate to 1024 and 65536.  R3 (allocation proportional to input): in Delta::read_impl every buf.push is paired with a "
     "successful read_int in the same loop, and the id conversions are range-checked (TypeIdRange, IdRange, NegativeSize, "
     "TooLongDiff clauses present).  R4: a delta that resizes an existing item is refused before apply_item_delta (the guard added "
-    "by the D13 repair).  R2b: both limit tests are about the snapshot after the insertion (num_items + 1; the same offset + size that becomes the new range's end).  Not decided: `written out and read back equal` (value level)."
+    "by the D13 repair).  R2b: both limit tests are about the snapshot after the insertion (num_items + 1; the same offset + size that becomes the new range's end).  R5: Snap::type_id's reviewed unwrap rests on build_from_raw checking the registry for every type number >= OFFSET_EXTENDED_TYPE_ID (shared with C10 R3).  Not decided: `written out and read back equal` (value level)."
 )
 ASSUMPTIONS = [
     "std collections do not panic outside the listed APIs; allocation failure is out of scope",
@@ -30,6 +30,13 @@ def run(ctx, rep):
     proportional(ctx.prog, rep)
     resize_guard(ctx.prog, rep)
     limits_count_new_item(ctx.prog, rep)
+    # the reviewed unwrap of Snap::type_id rests on build_from_raw's registry clause (shared with C10 R3)
+    from .C10 import type_id_clause
+    from ..report import Report
+    sub = Report("C10", rep.tier, rep.seed)
+    type_id_clause(ctx.prog, sub)
+    for o in sub.obs:
+        rep.ob("R5-registry-clause", o["key"].split(" | ", 2)[2], o["ok"], o["detail"], o["at"])
 
 
 def choke_point(prog, rep):
